@@ -9,6 +9,14 @@ package ledger
 // files enabled) replays the blocks; its REAL catchpoint files (gzip+tar as served to peers)
 // are taken.
 //
+// (0) Writer under time slicing. catchpointTracker.generateCatchpointData calls
+//     catchpointFileWriter.FileWriteStep in time slices; a slice ends when the step context's
+//     deadline is noticed at one of FileWriteStep's polls. For every producer, the data file of
+//     its final tracker round is written with the real writer under EVERY position at which one
+//     slice can expire (poll k = 1,2,... until the file completes within the slice) and with
+//     periodic expiry (every slice at its m-th poll, m = 4..8); the records of the file must be
+//     identical to unsliced writing (violation key C16:writer-time-slice-loses-data).
+//
 // (1) Faithful restore. Every file is restored into a fresh ledger through the real
 //     CatchpointCatchupAccessor exactly as catchup.CatchpointCatchupService does it
 //     (ResetStagingBalances, SetLabel, ProcessStagingBalances per tar member, BuildMerkleTrie,
@@ -68,8 +76,12 @@ package ledger
 //      tampered file is still rejected in VerifyCatchpoint. Replaced by M3.
 
 import (
+	"archive/tar"
 	"context"
 	"fmt"
+	"io"
+	"os"
+	"path/filepath"
 	"reflect"
 	"sort"
 	"strings"
@@ -952,6 +964,172 @@ func c16Answers(l *Ledger, u c16Universe, rnd basics.Round, proto config.Consens
 
 // ---------------------------------------------------------------------------------------------
 
+// ---------------------------------------------------------------------------------------------
+// (0) the catchpoint data file writer under time slicing
+
+// c16SliceCtx is a step context for catchpointFileWriter.FileWriteStep whose deadline is
+// "noticed" exactly at its expireAt-th poll (FileWriteStep polls ctx.Done() at its entry, at the
+// top of every iteration and after every database read). expireAt <= 0: never.
+type c16SliceCtx struct {
+	context.Context
+	polls    int
+	expireAt int
+}
+
+var c16Closed = func() chan struct{} { c := make(chan struct{}); close(c); return c }()
+
+func (c *c16SliceCtx) Done() <-chan struct{} {
+	c.polls++
+	if c.expireAt > 0 && c.polls >= c.expireAt {
+		return c16Closed
+	}
+	return nil
+}
+
+func (c *c16SliceCtx) Err() error {
+	if c.expireAt > 0 && c.polls >= c.expireAt {
+		return context.DeadlineExceeded
+	}
+	return nil
+}
+
+// c16WriteSliced writes the (first stage) catchpoint data file of the ledger's current tracker
+// round with the real writer, calling FileWriteStep in slices like generateCatchpointData does.
+// expiry(step) gives the poll at which slice #step expires (0 = never). Returns a rendering
+// of every record of the file in file order, and the number of slices used.
+func c16WriteSliced(l *Ledger, params config.ConsensusParams, path string, expiry func(step int) int) (recs []string, steps int, err error) {
+	_ = os.Remove(path)
+	var w *catchpointFileWriter
+	err = l.trackerDBs.Snapshot(func(ctx context.Context, tx trackerdb.SnapshotScope) error {
+		ar, err := tx.MakeAccountsReader()
+		if err != nil {
+			return err
+		}
+		rnd, err := ar.AccountsRound()
+		if err != nil {
+			return err
+		}
+		// like finishFirstStage: only the last MaxBalLookback rounds of online history go into the file
+		w, err = makeCatchpointFileWriter(ctx, params, path, tx, ResourcesPerCatchpointFileChunk, rnd, catchpointLookbackHorizonForNextRound(rnd, params))
+		if err != nil {
+			return err
+		}
+		more := true
+		for more {
+			if steps > 500 {
+				_ = w.Abort()
+				return fmt.Errorf("no progress after %d slices", steps)
+			}
+			sc := &c16SliceCtx{Context: ctx, expireAt: expiry(steps)}
+			steps++
+			more, err = w.FileWriteStep(sc)
+			if err != nil {
+				return err
+			}
+		}
+		return nil
+	})
+	if err != nil {
+		return nil, steps, err
+	}
+	f, err := os.Open(path)
+	if err != nil {
+		return nil, steps, err
+	}
+	defer f.Close()
+	dec, err := catchpointStage1Decoder(f)
+	if err != nil {
+		return nil, steps, err
+	}
+	tr := tar.NewReader(dec)
+	for {
+		h, err := tr.Next()
+		if err == io.EOF {
+			break
+		}
+		if err != nil {
+			return nil, steps, err
+		}
+		b, err := io.ReadAll(tr)
+		if err != nil {
+			return nil, steps, err
+		}
+		var chunk CatchpointSnapshotChunkV6
+		if err := protocol.Decode(b, &chunk); err != nil {
+			return nil, steps, fmt.Errorf("section %s: %v", h.Name, err)
+		}
+		recs = append(recs, "section "+h.Name)
+		for _, x := range chunk.Balances {
+			recs = append(recs, fmt.Sprintf("bal %x", protocol.Encode(&x)))
+		}
+		for _, x := range chunk.KVs {
+			recs = append(recs, fmt.Sprintf("kv %x", protocol.Encode(&x)))
+		}
+		for _, x := range chunk.OnlineAccounts {
+			recs = append(recs, fmt.Sprintf("oa %x", protocol.Encode(&x)))
+		}
+		for _, x := range chunk.OnlineRoundParams {
+			recs = append(recs, fmt.Sprintf("orp %x", protocol.Encode(&x)))
+		}
+	}
+	recs = append(recs, fmt.Sprintf("totals accounts=%d kvs=%d online=%d params=%d chunks=%d", w.totalAccounts, w.totalKVs, w.totalOnlineAccounts, w.totalOnlineRoundParams, w.chunkNum))
+	return recs, steps, nil
+}
+
+// c16CheckWriterSlicing: every way in which ONE time slice can expire (at its k-th poll, for
+// every k until the file is written in a single slice), and slices that all expire at their
+// m-th poll (m = 4..8), must produce the same file content as unsliced writing.
+func c16CheckWriterSlicing(r *ve.Run, l *Ledger, params config.ConsensusParams, hname string, dir string) (cases int) {
+	path := filepath.Join(dir, "slice-"+hname+".data")
+	defer os.Remove(path)
+	ref, _, err := c16WriteSliced(l, params, path, func(int) int { return 0 })
+	if err != nil || len(ref) < 3 {
+		r.Report("C16:writer-error", fmt.Sprintf("history %s: unsliced catchpoint data writing failed: %v (%d records)", hname, err, len(ref)), map[string]any{"engine": "c16-writer", "history": hname})
+		return 0
+	}
+	try := func(name string, expiry func(step int) int) (steps int) {
+		got, steps, err := c16WriteSliced(l, params, path, expiry)
+		cases++
+		r.Eval()
+		replay := map[string]any{"engine": "c16-writer", "history": hname, "slicing": name}
+		if err != nil {
+			r.Report("C16:writer-time-slice-error", fmt.Sprintf("history %s, slicing %s: writing failed: %v", hname, name, err), replay)
+			return steps
+		}
+		if strings.Join(got, "\n") != strings.Join(ref, "\n") {
+			missing := 0
+			have := map[string]bool{}
+			for _, x := range got {
+				have[x] = true
+			}
+			for _, x := range ref {
+				if !have[x] {
+					missing++
+				}
+			}
+			r.Report("C16:writer-time-slice-loses-data", fmt.Sprintf("history %s, slicing %s (%d slices): the catchpoint data file differs from the one written in a single slice: %d lines instead of %d, %d of the reference lines are missing (last line: %q vs %q)", hname, name, steps, len(got), len(ref), missing, got[len(got)-1], ref[len(ref)-1]), replay)
+		}
+		r.Class(fmt.Sprintf("writer-slicing/%s/%d-slices", hname, steps))
+		return steps
+	}
+	for k := 1; k <= 64; k++ {
+		k := k
+		if steps := try(fmt.Sprintf("first slice expires at poll %d", k), func(step int) int {
+			if step == 0 {
+				return k
+			}
+			return 0
+		}); steps == 1 {
+			break // the expiry was never reached: everything beyond is the unsliced case
+		}
+	}
+	for m := 4; m <= 8; m++ {
+		m := m
+		try(fmt.Sprintf("every slice expires at poll %d", m), func(int) int { return m })
+	}
+	return cases
+}
+
 type c16Target struct {
 	hist    int
 	round   basics.Round
@@ -983,6 +1161,7 @@ func TestVerif_C16(t *testing.T) {
 	var targets []*c16Target
 	var mu sync.Mutex
 	restored := 0
+	sliceCases := 0
 	var seq atomic.Int64
 
 	// ---- producers + faithful restores
@@ -1009,8 +1188,20 @@ func TestVerif_C16(t *testing.T) {
 			t.Fatalf("harness: producer answers: %v", err)
 		}
 		cpRounds := c14SortedRounds(prodObs.Labels)
+		// the producer itself must not fail while producing catchpoints
+		for _, m := range prodObs.LogMsgs {
+			if strings.Contains(m, "catchpoint") || strings.Contains(m, "Could not commit") || strings.Contains(m, "unable to advance tracker") {
+				r.Report("C16:producer-catchpoint-error", fmt.Sprintf("history %s: the producing ledger logged %q while generating its catchpoints (labels produced: %v)", h.Name, m, cpRounds),
+					map[string]any{"engine": "c16", "history": h.Name, "mutation": "none"})
+				break
+			}
+		}
 		if len(cpRounds) < 3 {
-			t.Fatalf("harness: producer of %s made only %d catchpoints", h.Name, len(cpRounds))
+			if r.Violations() > 0 {
+				prod.close()
+				continue
+			}
+			t.Fatalf("harness: producer of %s made only %d catchpoints (log: %v)", h.Name, len(cpRounds), prodObs.LogMsgs)
 		}
 		for ci, cp := range cpRounds {
 			secs, err := prod.catchpointFile(cp)
@@ -1116,12 +1307,14 @@ func TestVerif_C16(t *testing.T) {
 				targets = append(targets, &c16Target{hist: hi, round: cp, label: label, secs: secs, file: f, muts: c16Mutations(f, ve.Thorough()), dump: dump, rejects: map[string]int{}})
 			}
 		}
+		sliceCases += c16CheckWriterSlicing(r, prod.l, proto, h.Name, dir)
 		prod.close()
 		if hi == 0 {
 			r.Sample(map[string]any{"history": h.Name, "labels": prodObs.Labels})
 		}
 	}
 	r.Set("faithful_restores", restored)
+	r.Set("writer_slicing_cases", sliceCases)
 
 	// ---- mutations
 	type pooled struct {
